@@ -180,3 +180,17 @@ contract(f"{M}:RTCSctpTransport._data_channel_send", params={"channel": "RTCData
          ],
          modifies=["content(self._data_channel_queue)", "channel.__bufferedAmount", "content(channel.emitted)"],
          tags=["C13", "C01"])
+
+# ---------------------------------------------------------------------------- out-of-band negotiated channels pair up by id
+contract(f"{M}:RTCSctpTransport._data_channel_add_negotiated", params={"channel": "RTCDataChannel"},
+         requires=["channel.__id is not None and 0 <= channel.__id", "channel.__readyState == 'connecting'"],
+         raises={"ValueError": "channel.__id in self._data_channels"},
+         ensures=["channel.__id in self._data_channels and same(self._data_channels[channel.__id], channel)",
+                  "all_in(old(self._data_channels), lambda k: k in self._data_channels and "
+                  "same(self._data_channels[k], old(self._data_channels[k])))",
+                  "all_in(self._data_channels, lambda k: k == channel.__id or k in old(self._data_channels))",
+                  # open at once on an established association, otherwise when it is established (_set_state)
+                  f"implies({EST_}, channel.__readyState == 'open' and channel.emitted[len(channel.emitted) - 1] == 'open')",
+                  f"implies(not ({EST_}), channel.__readyState == 'connecting' and len(channel.emitted) == old(len(channel.emitted)))"],
+         modifies=["content(self._data_channels)", "channel.__readyState", "content(channel.emitted)"],
+         tags=["C13"])
